@@ -281,7 +281,9 @@ def resolve_walk(u: U):
             assert isinstance(key, Pref) or key == "/", key
             G["keys"].append(key)
             G["visited_K"] = Or(G["visited_K"], K == key)
-            n = u.choose(3, "index.candidates")
+            from pyvc.registry import width
+
+            n = u.choose(width(3, 4), "index.candidates")
             lst = [_Cand(f"c{len(G['keys'])}.{i}") for i in range(n)]
             G.setdefault("lists", []).append(lst)
             return lst if n else default
@@ -306,7 +308,7 @@ def resolve_walk(u: U):
     f = u.load(MOD, "UrlDispatcher.resolve", globals={"HTTPMethodNotAllowed": mnf,
                                                        "MatchInfoError": lambda e: ("ERROR", e)})
     u.loop(FN_RES, 0, unroll=True, bound=2)
-    u.loop(FN_RES, 2, unroll=True, bound=3)
+    u.loop(FN_RES, 2, unroll=True, bound=5)
 
     def havoc(L):
         G["visited_K"] = u.bool("visited_K@loop")
